@@ -29,7 +29,8 @@ func (t *TransactionCancelTimer) Start() error {
 	if t.done != nil {
 		return fmt.Errorf("TransactionCancelTimer already started")
 	}
-	t.done = make(chan struct{})
+	done := make(chan struct{})
+	t.done = done
 
 	go func() {
 		timer := time.NewTimer(t.delay)
@@ -43,10 +44,9 @@ func (t *TransactionCancelTimer) Start() error {
 			if t.fnc != nil {
 				t.fnc()
 			}
-		case <-t.done:
+		case <-done:
 			// Stop the timer
 			log.Infof("TransactionCancelTimer stopped")
-			t.done = nil
 		}
 	}()
 
@@ -67,5 +67,7 @@ func (t *TransactionCancelTimer) Stop() {
 	if t.done == nil {
 		return
 	}
+	// closed once: a second Stop (the rollback run by the expired timer next to a Confirm or Cancel) finds nothing to close
 	close(t.done)
+	t.done = nil
 }
